@@ -49,6 +49,7 @@ def fvn_kernel():
 # (class, method, Lean name): pixel kernels `(disp, valid) -> (out_disp, out_val)` of interpolated_disparity.py
 PIXEL_KERNELS = [
     ("McCnnInterpolation", "interpolate_occlusion_mc_cnn", "occlusionMcCnnPx"),
+    ("McCnnInterpolation", "interpolate_mismatch_mc_cnn", "mismatchMcCnnPx"),
     ("SgmInterpolation", "interpolate_occlusion_sgm", "occlusionSgmPx"),
     ("SgmInterpolation", "interpolate_mismatch_sgm", "mismatchSgmPx"),
 ]
